@@ -43,9 +43,9 @@ theorem asciiUpper_eq_nonLetter {c : Char} (hc : nonLetter c) (d : Char) : ascii
 
 theorem nonLetter_dot : nonLetter '.' := by unfold nonLetter; decide
 
-/-- `[.]` under either case mode accepts exactly the dot -/
-theorem clsDot_iff (ci : Bool) (d : Char) :
-    clsMatch ci false [.chr '.' false] d = true ↔ d = '.' := by
+/-- `[c]` for a non-letter `c` accepts exactly `c`, under either case mode -/
+theorem clsChr_iff {c : Char} (hc : nonLetter c) (ci e : Bool) (d : Char) :
+    clsMatch ci false [.chr c e] d = true ↔ d = c := by
   simp only [clsMatch, List.any_cons, List.any_nil, Bool.or_false, ClsItem.hasCi, ClsItem.has]
   cases ci
   · simp; exact eq_comm
@@ -53,9 +53,13 @@ theorem clsDot_iff (ci : Bool) (d : Char) :
     constructor
     · rintro (h | h | h)
       · exact h.symm
-      · exact (asciiLower_eq_nonLetter nonLetter_dot d).mp h.symm
-      · exact (asciiUpper_eq_nonLetter nonLetter_dot d).mp h.symm
+      · exact (asciiLower_eq_nonLetter hc d).mp h.symm
+      · exact (asciiUpper_eq_nonLetter hc d).mp h.symm
     · intro h; exact Or.inl h.symm
+
+/-- `[.]` under either case mode accepts exactly the dot -/
+theorem clsDot_iff (ci : Bool) (d : Char) :
+    clsMatch ci false [.chr '.' false] d = true ↔ d = '.' := clsChr_iff nonLetter_dot ci false d
 
 /-! ### POSIX tables: the text in posix.py denotes exactly the documented classes -/
 
